@@ -627,7 +627,10 @@ func genCase(r *Rng, wild bool) tcase {
 	w.addrs = append(w.addrs, caddrs...)
 	w.addrs = append(w.addrs, caddrs...)
 	w.addrs = append(w.addrs, origin, coinbase, big.NewInt(4), big.NewInt(0x2222), big.NewInt(0x3333))
-	t.fork = []int{0, 0, 0, 0, 1, 2}[r.Intn(6)]
+	delAddrs := []*big.Int{big.NewInt(0x1100), big.NewInt(0x1101)}
+	w.addrs = append(w.addrs, delAddrs...)
+	w.addrs = append(w.addrs, delAddrs...)
+	t.fork = []int{0, 0, 0, 1, 1, 2}[r.Intn(6)]
 	t.env = []*big.Int{origin, big.NewInt(int64(r.Intn(100))), coinbase, big.NewInt(int64(1000 + r.Intn(1000))),
 		big.NewInt(int64(r.Intn(600))), new(big.Int).SetBytes(r.Bytes(32)), big.NewInt(1),
 		big.NewInt(int64(r.Intn(1000))), big.NewInt(int64(1 + r.Intn(50)))}
@@ -675,6 +678,35 @@ func genCase(r *Rng, wild bool) tcase {
 	if r.Chance(1, 3) {
 		t.pre = append(t.pre, acct{addr: big.NewInt(0x2222), balance: big.NewInt(int64(r.Intn(5))), nonce: uint64(r.Intn(2))})
 	}
+	// EIP-7702 delegation designators (0xef0100 ++ address) as account code: resolved by the CALL
+	// family since Prague (one level), plain undefined code 0xEF before
+	ndel := 0
+	if r.Chance(2, 5) {
+		ndel = 1 + r.Intn(2)
+	}
+	if ndel > 0 && r.Chance(3, 4) {
+		t.fork = 1 + r.Intn(2) // mostly exercised where delegations are resolved
+	}
+	for i := 0; i < ndel; i++ {
+		var target *big.Int
+		switch r.Intn(8) {
+		case 0:
+			target = big.NewInt(4) // identity precompile: its account code is empty
+		case 1:
+			target = big.NewInt(0x3333) // no such account
+		case 2:
+			target = big.NewInt(int64(0x1100 + r.Intn(2))) // itself / another designator: only one level is followed
+		case 3:
+			target = origin
+		default:
+			target = caddrs[r.Intn(ncon)]
+		}
+		code := append([]byte{0xef, 0x01, 0x00}, addrOf(target).Bytes()...)
+		if r.Chance(1, 12) {
+			code = code[:22] // malformed designator
+		}
+		t.pre = append(t.pre, acct{addr: delAddrs[i], balance: big.NewInt(int64(r.Intn(30))), nonce: 1, code: code})
+	}
 	if r.Chance(1, 5) {
 		t.pre = append(t.pre, acct{addr: coinbase, balance: big.NewInt(7)})
 	}
@@ -712,6 +744,9 @@ func genCase(r *Rng, wild bool) tcase {
 		t.to = caddrs[r.Intn(ncon)]
 		if r.Chance(1, 25) {
 			t.to = w.addrs[r.Intn(len(w.addrs))]
+		}
+		if ndel > 0 && r.Chance(1, 4) {
+			t.to = delAddrs[r.Intn(ndel)]
 		}
 		t.data = r.Bytes(r.Intn(70))
 	}
